@@ -12,6 +12,7 @@ CONSTANTS
  FixMonotone = TRUE
  FixReadOrder = FALSE
  FixRange = TRUE
+ FixIndexSearch = TRUE
  FixValidate = TRUE
  DevNoWait = FALSE
  DevCommitBeforeIndex = FALSE
